@@ -792,3 +792,227 @@ def model_reassign(ctx, variant, how):
     want_f, want_v = raw_call(ctx, F, tp, te)
     ctx.ensure("estimate=fresh(new-model)", ctx.eq(got_f, want_f))
     ctx.ensure("variance=fresh(new-model)", ctx.eq(got_v, want_v))
+
+
+# ---------------------------------------------------------------------------------------
+# (7b) the estimate uses THE normalizer / mean / trend the object has, also when they are
+#      re-assigned after a first call (history: build, call, assign, [set_condition], call)
+# ---------------------------------------------------------------------------------------
+SETTINGS = {
+    # what: (attribute, old (norm, mean, trend), new setting kind)
+    "normalizer:none->generic": ("normalizer", ("none", "const", "const"), "generic"),
+    "normalizer:generic->generic2": ("normalizer", ("generic", "const", "callable"), "generic2"),
+    "normalizer:generic->LogNormal": ("normalizer", ("generic", "const", "const"), "LogNormal"),
+    "normalizer:LogNormal->none": ("normalizer", ("LogNormal", "const", "const"), "none"),
+    "mean:const->const": ("mean", ("generic", "const", "callable"), "const"),
+    "mean:const->callable": ("mean", ("generic", "const", "const"), "callable"),
+    "mean:none->const": ("mean", ("generic", "none", "none"), "const"),
+    "trend:const->callable": ("trend", ("generic", "const", "const"), "callable"),
+    "trend:callable->const": ("trend", ("generic", "const", "callable"), "const"),
+    "trend:none->const": ("trend", ("none", "none", "none"), "const"),
+}
+SET_PARAMS = [{"variant": v, "what": w, "how": h}
+              for v in ("simple", "ordinary", "universal+ext") for w in SETTINGS
+              for h in ("assign", "assign+set_condition")
+              if not (v == "ordinary" and w.startswith("mean"))]
+
+
+@contract(P, "Krige.normalizer,mean,trend.setter/estimate=fresh-Krige-with-new-setting", params=SET_PARAMS,
+          functions=["krige/base.py:Krige.normalizer", "krige/base.py:Krige.mean", "krige/base.py:Krige.trend",
+                     "field/base.py:Field.normalizer", "field/base.py:Field.mean", "field/base.py:Field.trend",
+                     "krige/base.py:Krige._krige_cond", "krige/base.py:Krige.set_condition", "krige/base.py:Krige.__call__"],
+          bounded=BND, nsamples=3, search=40, timeout=10, max_paths=MAXP)
+@kc.guarded
+def setting_reassign(ctx, variant, what, how):
+    """results use the normalizer / mean / trend the object HAS at the time of the call: after a
+    first call and a re-assignment (documented: 'If you have changed any properties in the class,
+    you can update the kriging setup by calling set_condition' -- the data pre-processing must not
+    need it, with it the result must be the same) estimate and variance equal those of a freshly
+    built object with the new setting"""
+    kc.reset()
+    attr, (norm0, mean0, trend0), new = SETTINGS[what]
+    dim = 1
+    n = max(2, kc.min_points(variant, dim))
+    S = kc.build(ctx, variant, n, dim, norm=norm0, mean=mean0, trend=trend0)
+    if new == "LogNormal":      # new normalize range (0, inf): value - trend > 0
+        for a in range(n):
+            S.val_req.append(ctx.require(ctx.gt(S.vals[a] - S.trend_at(S.pts[a]), 0),
+                                         "value - trend in the normalize range of the new normalizer"))
+    tp, pts, te = kc.targets(ctx, S, 2)
+    quiet(S.krige, tp, ext_drift=te)                     # first call with the old setting
+    ov = {}
+    if attr == "normalizer":
+        narg, nm, dn = kc.normalizer(ctx, new)
+        ov["norm"] = (narg, nm, dn, new)
+        S.krige.normalizer = narg
+    else:
+        arg, at = kc.mean_trend(ctx, "new" + attr, new, dim)
+        ov[attr] = (arg, at)
+        setattr(S.krige, attr, arg)
+    if how == "assign+set_condition":
+        quiet(S.krige.set_condition)
+    F = kc.build(ctx, variant, n, dim, like=S, override=ov, tag="f")
+    want_cond = kc.spec_cond(ctx, F)
+    got_cond = quiet(lambda: S.krige._krige_cond)
+    ctx.ensure("cond-vector=normalize(value-trend)-mean(NEW-setting)", ctx.And(ctx.shape_eq(got_cond, (S.m,)),
+                                                                              ctx.eq(got_cond, want_cond)))
+    got_f, got_v = quiet(S.krige, tp, ext_drift=te)
+    got_r, _ = raw_call(ctx, S, tp, te)
+    want_f, want_v = quiet(F.krige, tp, ext_drift=te)
+    want_r, _ = raw_call(ctx, F, tp, te)
+    ctx.ensure("estimate(raw)=fresh(new-setting)", ctx.eq(got_r, want_r))
+    ctx.ensure("estimate(post-processed)=fresh(new-setting)", ctx.eq(got_f, want_f))
+    ctx.ensure("variance=fresh(new-setting)", ctx.eq(got_v, want_v))
+    for c in range(2):
+        ctx.ensure("estimate(post-processed)=trend+denormalize(mean+raw)(NEW-setting)",
+                   ctx.eq(got_f[c], F.trend_at(pts[c]) + F.dn(F.mean_at(pts[c]) + got_r[c])))
+
+
+# ---------------------------------------------------------------------------------------
+# (8) set_condition with fit_normalizer / fit_variogram: whatever the fits return, the kriging
+#     set-up afterwards is that of the FINAL normalizer and model
+# ---------------------------------------------------------------------------------------
+def _same_value(ctx, a, b):
+    """plain (non-symbolic) settings such as geo_scale"""
+    try:
+        return float(a) == float(b)
+    except TypeError:
+        return ctx.mode == "sym" and symrun.lift(a).eq(symrun.lift(b))
+
+
+class FitEnv:
+    """ghosts for the fitting routines (optimisers; their accuracy is C10 / T5 residue):
+    * `vario_estimate` (module global of krige/base.py) -> records its arguments, returns symbolic
+      bin centres / variogram values;
+    * `model.fit_variogram` -> records its arguments and assigns fresh in-bounds var, len_scale,
+      nugget and anisotropy ratio to the model (assumed contract of fitting: 'changes the model
+      parameters arbitrarily within their bounds');
+    * `normalizer.fit` -> kc.normalizer('genericp')."""
+
+    def __init__(self, ctx, dim, start):
+        self.ctx, self.dim = ctx, dim
+        self.vlog, self.flog = [], []
+        U = kc.gc.generic_model_class(ctx)
+        env = self
+        n0 = len(ctx.path.assume) if ctx.mode == "sym" else 0
+        self.new = dict(var=ctx.real("fit_var", lo=0.5, hi=2.0), len_scale=ctx.real("fit_len", lo=0.7, hi=2.0),
+                        nugget=ctx.real("fit_nug", lo=0.05, hi=0.5),
+                        anis=[ctx.real("fit_anis%d" % i, lo=0.5, hi=2.0) for i in range(dim - 1)])
+        ctx.require(ctx.And(ctx.gt(self.new["var"], 0), ctx.gt(self.new["len_scale"], 0), ctx.gt(self.new["nugget"], 0),
+                            *[ctx.gt(a, 0) for a in self.new["anis"]]))
+
+        class FitModel(U):
+            def fit_variogram(self, x_data, y_data, anis=True, sill=None, **kw):
+                env.flog.append({"x": x_data, "y": y_data, "anis": anis, "sill": sill, "kw": kw})
+                self.var = env.new["var"]
+                self.len_scale = env.new["len_scale"]
+                self.nugget = env.new["nugget"]
+                self.anis = list(env.new["anis"])
+                return {}, None
+        self.model = kc.sym_model(ctx, dim, nugget="sym", aniso=(start == "aniso"), cls=FitModel,
+                                  anis_not_one=(start == "aniso"))
+        self.req = list(ctx.path.assume[n0:]) if ctx.mode == "sym" else []
+        self.bins = arr(ctx, [ctx.real("bin%d" % i, lo=0.5 + i, hi=1.0 + i) for i in range(2)])
+        self.gamma = arr(ctx, [ctx.real("gam%d" % i, lo=0.2, hi=1.5) for i in range(2)])
+        self.dgamma = arr(ctx, [[ctx.real("dgam%d_%d" % (d, i), lo=0.2, hi=1.5) for i in range(2)] for d in range(dim)])
+
+    def vario_estimate(self, *a, **kw):
+        self.vlog.append((a, kw))
+        return (self.bins, self.dgamma) if "direction" in kw else (self.bins, self.gamma)
+
+    def __enter__(self):
+        self._real = kc.kb.vario_estimate
+        kc.kb.vario_estimate = self.vario_estimate
+        return self
+
+    def __exit__(self, *exc):
+        kc.kb.vario_estimate = self._real
+        return False
+
+
+def fitted_setup(ctx, env, variant, n, via, err, tag=""):
+    """a Krige object whose set_condition ran with fit_normalizer=True, fit_variogram=True"""
+    narg, nm, dn = kc.normalizer(ctx, "genericp")
+    ov = {"norm": (narg, nm, dn, "genericp")}
+    fit = dict(fit_normalizer=True, fit_variogram=True)
+    S = kc.build(ctx, variant, n, env.dim, err=err, model=env.model, mean="const", trend="callable", override=ov,
+                 ctor_kw=fit if via == "constructor" else None, tag=tag)
+    if via == "set_condition":
+        n0 = len(kc.CALLS["inv"])
+        quiet(S.krige.set_condition, **fit)
+        S.inv_calls = kc.CALLS["inv"][n0:]
+    S.A, S.K = S.inv_calls[-1]["A"], S.inv_calls[-1]["K"]
+    S.inv_calls = S.inv_calls[-1:]
+    if err in ("nugget", "exact"):
+        S.errs = [S.model.nugget] * n          # the measurement error is the FINAL model nugget
+    S.model_req = env.req
+    return S, narg
+
+
+FIT_PARAMS = [{"variant": v, "start": st, "via": via} for v in ("simple", "ordinary", "universal")
+              for st in ("iso", "aniso") for via in ("constructor", "set_condition")]
+
+
+@contract(P, "Krige.set_condition[fit_normalizer,fit_variogram]/post-state=set-up-of-the-FINAL-model", params=FIT_PARAMS,
+          functions=["krige/base.py:Krige.set_condition", "krige/base.py:Krige._get_krige_mat", "krige/base.py:Krige.__init__",
+                     "covmodel/base.py:CovModel.is_isotropic", "tools/geometric.py:rotated_main_axes"],
+          bounded=BND, nsamples=3, search=40, timeout=15, max_paths=MAXP)
+@kc.guarded
+def fit_post_state(ctx, variant, start, via):
+    """Class invariant of Krige after set_condition: _krige_pos = model.isometrize(cond_pos) and
+    _krige_mat = inverse of the textbook matrix, both for the model the object has AFTER the fits;
+    plus what is handed to the fitting routines (documented intent of set_condition)."""
+    kc.reset()
+    dim, n = 2, 3
+    env = FitEnv(ctx, dim, start)
+    with env:
+        start_view = dict(anis=list(env.model.anis), angles=list(env.model.angles), axes=env.model.main_axes())
+        S, narg = fitted_setup(ctx, env, variant, n, via, "nugget")
+    m = ctx.m
+    model = S.model
+    # the fitted model is the object's model and carries the values the fit assigned
+    ctx.ensure("model=fitted-model", S.krige.model is model and ctx.And(
+        ctx.eq(model.var, env.new["var"]), ctx.eq(model.len_scale, env.new["len_scale"]),
+        ctx.eq(model.nugget, env.new["nugget"]), ctx.eq(model.anis, arr(ctx, env.new["anis"])),
+        ctx.eq(model.angles, arr(ctx, start_view["angles"]))))
+    calls = 1
+    ctx.ensure("fit-routines-called-once-each", len(type(narg).fit_log) == calls and len(env.vlog) == calls
+               and len(env.flog) == calls)
+    if not (len(type(narg).fit_log) == calls and len(env.vlog) == calls and len(env.flog) == calls):
+        return
+    detr = [S.vals[a] - S.trend_at(S.pts[a]) for a in range(n)]
+    ctx.ensure("normalizer.fit(data=value-trend)", ctx.And(ctx.shape_eq(type(narg).fit_log[0], (n,)),
+                                                           ctx.eq(type(narg).fit_log[0], arr(ctx, detr))))
+    ctx.ensure("normalizer-parameter=fitted-value", ctx.eq(narg.lam, narg.lam_fitted))
+    # empirical variogram of the normalised (with the FITTED normalizer), detrended, zero-mean data
+    (va, vkw) = env.vlog[0]
+    field = [S.nm(detr[a]) - S.mean_at(S.pts[a]) for a in range(n)]
+    ctx.ensure("vario_estimate(pos=cond_pos,field=normalize(value-trend)-mean)",
+               len(va) == 2 and ctx.And(ctx.shape_eq(va[0], (dim, n)), ctx.eq(va[0], S.cpos), ctx.shape_eq(va[1], (n,)),
+                                        ctx.eq(va[1], arr(ctx, field))))
+    if start == "iso":
+        ctx.ensure("isotropic-start-model:isotropic-estimate(latlon,geo_scale-of-the-model)",
+                   set(vkw) == {"latlon", "geo_scale"} and bool(vkw["latlon"]) == bool(model.latlon)
+                   and _same_value(ctx, vkw["geo_scale"], model.geo_scale))
+    else:
+        ctx.ensure("anisotropic-start-model:directional-estimate-along-the-model's-main-axes",
+                   set(vkw) == {"direction"} and ctx.And(ctx.shape_eq(vkw["direction"], (dim, dim)),
+                                                         ctx.eq(vkw["direction"], start_view["axes"])))
+    fl = env.flog[0]
+    mean_f = sum(field) / n
+    ctx.ensure("model.fit_variogram(bins,variogram,sill=data-variance)",
+               ctx.And(ctx.eq(fl["x"], env.bins), ctx.eq(fl["y"], env.dgamma if start == "aniso" else env.gamma),
+                       ctx.eq(fl["sill"], sum((f - mean_f) * (f - mean_f) for f in field) / n), not fl["kw"],
+                       fl["anis"] is True))
+    # invariant: conditioning positions isometrised with the FINAL model, matrix of the FINAL model
+    kp = S.krige._krige_pos
+    ctx.ensure("invariant:_krige_pos=FINAL-model.isometrize(cond_pos)",
+               ctx.And(ctx.shape_eq(kp, (dim, n)), ctx.eq(kp, model.isometrize(S.cpos))), using=S.model_req)
+    _matrix_obligations(ctx, S, prefix="invariant:FINAL-model:")
+    # equivalently: results of a fresh object built with the final model and normalizer, no fitting
+    tp, pts, te = kc.targets(ctx, S, 2)
+    got_f, got_v = raw_call(ctx, S, tp, te)
+    F = kc.build(ctx, variant, n, dim, like=S, tag="f")
+    want_f, want_v = raw_call(ctx, F, tp, te)
+    ctx.ensure("estimate=fresh-Krige(final-model)", ctx.eq(got_f, want_f))
+    ctx.ensure("variance=fresh-Krige(final-model)", ctx.eq(got_v, want_v))
